@@ -439,6 +439,9 @@ def finish(mod, prop_id, tier, seed, results, wall):
     os.makedirs(os.path.join(ROOT, "evidence"), exist_ok=True)
     with open(os.path.join(ROOT, "evidence", f"{prop_id}.json"), "w") as f:
         json.dump(ev, f, indent=1, default=str)
+    if os.environ.get("VERIF_SLOWEST"):
+        for r in sorted(results, key=lambda r: -r["wall"])[:5]:
+            print("SLOW", round(r["wall"], 1), (r["stats"] or {}).get("paths"), json.dumps(r["sp"], default=str)[:200])
     for l in out_lines:
         print(l)
     print(f"[{prop_id} {tier}] subspaces={len(results)} paths={n_paths} obligations={ev['coverage']['obligations']} "
